@@ -127,15 +127,18 @@ package txpool
 //@   requires wfPool(pool) && !held(pool.RW)
 //@   ensures wfPool(pool) && !held(pool.RW)
 //@   ensures len(result) <= max(size, 0)
-//@   ensures forall(j, 0, len(result), result[j] != nil && result[j].data.Expiration >= uint64(time))
-//@   ensures forall(j, 0, len(result), exists(i, 0, old(len(pool.txs)), old(pool.txs[i]) == result[j]))
-//@   ensures forall(a, 0, len(result), forall(b, 0, len(result), a != b ==> result[a].Hash() != result[b].Hash()))
+//@   ensures forall(j, 0, len(result), result[j] != nil)
+//@   ensures #exp: forall(j, 0, len(result), result[j].data.Expiration >= uint64(time))
+//@   ensures #uniq: forall(j, 0, len(result), exists(i, 0, old(len(pool.txs)), old(pool.txs[i]) == result[j]))
+//@   ensures #uniq: forall(a, 0, len(result), forall(b, 0, len(result), a != b ==> result[a].Hash() != result[b].Hash()))
 //@   ensures len(pool.txs) == old(len(pool.txs)) && forall(i, 0, len(pool.txs), pool.txs[i] == old(pool.txs[i]) || pool.txs[i] == nil)
 //@   invariant @loop 0: 0 <= $k && $k <= $n && $n == old(len(pool.txs)) && held(pool.RW) && wfPool(pool) && sameSlice($s, pool.txs) && sameSlice(pool.txs, old(pool.txs))
 //@   invariant @loop 0: fresh(result) && len(result) <= $k && len(result) < size && 0 < size
 //@   invariant @loop 0: forall(i, 0, len(pool.txs), pool.txs[i] == old(pool.txs[i]) || pool.txs[i] == nil)
-//@   invariant @loop 0: forall(j, 0, len(result), result[j] != nil && result[j].data.Expiration >= uint64(time) && exists(i, 0, $k, old(pool.txs[i]) == result[j]))
-//@   invariant @loop 0: forall(a, 0, len(result), forall(b, 0, len(result), a != b ==> result[a].Hash() != result[b].Hash()))
+//@   invariant @loop 0: forall(j, 0, len(result), result[j] != nil)
+//@   invariant @loop 0 #exp: forall(j, 0, len(result), result[j].data.Expiration >= uint64(time))
+//@   invariant @loop 0 #uniq: forall(j, 0, len(result), exists(i, 0, $k, old(pool.txs[i]) == result[j]))
+//@   invariant @loop 0 #uniq: forall(a, 0, len(result), forall(b, 0, len(result), a != b ==> result[a].Hash() != result[b].Hash()))
 //@   nopanic
 
 // the exported operations: each runs under the pool lock (taken and released; requires !held: no re-entrance) and keeps wfPool
